@@ -146,6 +146,11 @@ func main() {
 	os.RemoveAll(dir)
 	os.MkdirAll(dir, 0o755)
 
+	if rep, ok := readJSON(filepath.Join(root, ".work", "ov", "report.json")).(map[string]any); ok {
+		if n, _ := rep["R5skipped"].(float64); n > 0 {
+			fmt.Printf("WARNING: the rewriter could not order %v map iteration(s) (key type not ordered): replay may not be exact\n", n)
+		}
+	}
 	// fan out
 	var wg sync.WaitGroup
 	var mu sync.Mutex
